@@ -47,6 +47,11 @@ TEXT = {
         "level_text": "Generated multi-datatype histories run in a child process that performs the DoServe initialisation on real Badger/file-log/mutation-log stores; at generated points the process is shut down cleanly or SIGKILLed while idle and a new process is started on the same directories; the complete observable state (repos, DAG, flags, notes, logs, branch resolution, instance settings, every read endpoint of every instance at every version) must be identical. Only a fresh process sees state rebuilt from disk, which the in-process reopen helper cannot show.",
         "level_note": "<=~35 ops and <=5 restarts per history; labelmap extent 2x2x2 blocks of 16^3; set-valued answers (supervoxel lists, field names, element lists, block streams) are compared order-independently; crash = SIGKILL of an idle process (no power-loss semantics).",
     },
+    "C12": {
+        "technique": "property-based testing (rapid): stateful allocation histories against a real server process with restart / SIGKILL / crash-at-write-point pseudo-ops; history invariant oracle (uniqueness and monotonicity of every identifier the server hands out)",
+        "level_text": "Generated histories of allocation requests (merge, cleave, nextlabel, new versions / instances / repos, concurrent bursts) whose lengths are steered to the mutation-id persistence stride, interleaved with ingests of larger labels, renumbering to caller-chosen labels, clean restarts, SIGKILLs and crashes injected at the k-th store write of a request; every mutation id, label, version id, repo id and instance id observed over the whole history must be unique, and mutation ids / labels must increase and labels must exceed everything stored.",
+        "level_note": "<=~400 allocations and <=5 restarts per history; crash = SIGKILL at a write point inside the process; after an administrator set-nextlabel (only to values above everything issued) only uniqueness is asserted.",
+    },
 }
 
 
